@@ -523,6 +523,14 @@ fn guaranteed_samples(stake: Stake, total_stake: Stake, k: u64) -> u64 {
     samples as u64
 }
 
+/// Stake accounted for by `samples` guaranteed seats: `samples * total_stake / k`, rounded down.
+///
+/// Computed in 128 bits, as `samples * total_stake` exceeds `u64` for token-scale stakes.
+fn guaranteed_stake(samples: u64, total_stake: Stake, k: u64) -> Stake {
+    let stake = u128::from(samples) * u128::from(total_stake.inner()) / u128::from(k);
+    Stake::new(stake as u64)
+}
+
 /// A sampler that uses the FA1-F committee sampling strategy.
 ///
 /// This is a strict improvement over performing IID stake-weighted sampling.
@@ -552,7 +560,7 @@ impl FaitAccompli1Sampler<PartitionSampler> {
         let mut validators_truncated_stake = validators.clone();
         for v in &mut validators_truncated_stake {
             let samples = guaranteed_samples(v.stake, total_stake, k);
-            v.stake -= Stake::new(samples * total_stake.inner() / k);
+            v.stake -= guaranteed_stake(samples, total_stake, k);
             required_samples.extend((0..samples).map(|_| v.id));
         }
         let all_zero = validators_truncated_stake
@@ -583,7 +591,7 @@ impl FaitAccompli1Sampler<IidQuorumSampler<StakeWeightedSampler>> {
         let mut validators_truncated_stake = validators.clone();
         for v in &mut validators_truncated_stake {
             let samples = guaranteed_samples(v.stake, total_stake, k);
-            v.stake -= Stake::new(samples * total_stake.inner() / k);
+            v.stake -= guaranteed_stake(samples, total_stake, k);
             required_samples.extend((0..samples).map(|_| v.id));
         }
         let all_zero = validators_truncated_stake
